@@ -196,14 +196,18 @@ def run(chk):
     # below 2^32 and grow past 2^8 .. 2^32 and beyond (jumps of up to 2^31 - 7 per packet, 4-byte encodings): a packet is exported
     # iff its nonce is the full reconstructed number (RFC 9001 5.3); behaviours from Quic.tla incl. key updates
     from checks import c02
-    ku = dict(SuiteSet='{"1301","1303"}', OfferFirst='{"same"}', Splits='{<<1>>}', Retries="{FALSE}", ZeroRtts="{FALSE}", MaxApp="6", MaxGen="2")
+    ku = dict(SuiteSet='{"1301","1303"}', OfferFirst='{"same"}', Splits='{<<1>>}', Retries="BOOLEAN", ZeroRtts="{FALSE}", MaxApp="6", MaxGen="2")
     behs = c02.gen(chk, ku, 12 if quick else 120, chk.seed + 5)
     rng.shuffle(behs)
     starts = [0, 255, (1 << 16) - 1, (1 << 24) - 2, 1 << 31, (1 << 32) - 300, (1 << 32) - 1]
     ejobs = []
     for b in behs[: 120 if quick else 2500]:
-        pm = dict(c_cid_len=rng.choice([0, 8]), s_cid_len=rng.choice([4, 8]), pnlen={"c": 4, "s": 4}, pn_gaps=rng.choice(["big", "huge", "huge"]),
-                  pn_start={"c": {"a": rng.choice(starts)}, "s": {"a": rng.choice(starts)}})
+        # every space may start anywhere below 2^32 (a Retry does NOT restart the Initial numbering, RFC 9000 17.2.5.3); later packets use
+        # the shortest encoding the observer can decode unless a huge gap forces four bytes
+        pl = rng.choice([1, 2, 4])
+        pm = dict(c_cid_len=rng.choice([0, 8]), s_cid_len=rng.choice([4, 8]), pnlen={"c": pl, "s": rng.choice([1, 2, 4])}, pn_gaps=rng.choice(["big", "huge", "huge"]),
+                  pn_start={"c": {"a": rng.choice(starts), "i": rng.choice([0, 0, 0x58CC0473, (1 << 16) - 1, (1 << 32) - 2]), "h": rng.choice([0, 70000])},
+                            "s": {"a": rng.choice(starts), "i": rng.choice([0, 0, 0x1C904400]), "h": rng.choice([0, 255])}})
         ejobs.append((b, rng.randrange(1 << 30), pm, []))
     maxpn = 0
     for res in pool_map(c02._one, ejobs):
